@@ -104,7 +104,7 @@ package builder
 //@ domain bounded-depth: 0 <= s.depth && s.depth <= 64
 
 //@ func (*data/builder.shard).formatLinkName
-//@ prop C02
+//@ prop C02 C08
 //@ requires bucket-in-range: 0 <= idx && idx < s.size
 //@ ensures prefix-is-width-digits: len(result) == s.width + len(name)
 //@ ensures name-follows-the-prefix: substr(result, s.width, len(result)) == name
@@ -129,6 +129,7 @@ package builder
 
 //@ func data/builder.BuildUnixFSShardedDirectory
 //@ prop C08 C10
+//@ at call (hash.Hash).Sum#1 assert key-is-the-hash-of-exactly-this-entrys-name: hinput(h) == name && len(callee_b) == 0
 //@ domain permitted-fanout: 8 <= size && size <= 1024
 //@ ensures any-write-failure-fails-the-build: (err == nil ==> storeFailed == old(storeFailed)) && (old(storeFailed) ==> storeFailed)
 //@ ensures error-implies-nil-link: err != nil ==> result0 == nil
@@ -159,6 +160,8 @@ package builder
 //@ inst monotone-so-far: l: l
 //@ loop 0 invariant no-failure-so-far: storeFailed == old(storeFailed)
 //@ at call data/builder.BuildUnixFSDirectoryEntry#1 assert entry-stored-before-directory: stored(callee_hash)
+//@ at call data/builder.BuildUnixFSSymlink#1 assert symlink-target-is-the-readlink-text: callee_content == content
+//@ at call data/builder.BuildUnixFSDirectoryEntry#1 assert entry-is-named-sized-and-linked-as-imported: callee_name == dirEntryName(e) && callee_size == int64(sz) && callee_hash == lnk
 
 // ---------------------------------------------------------------------------------------------
 // C01 / C11: size bookkeeping of the file builder. A node's content size is the total of its
@@ -171,11 +174,15 @@ package builder
 //@ pure
 //@ reads mem(fs)
 //@ alias totalBytes uint64
+//@ loop 0 invariant running-total-counts-every-child: total == sum(k, 0, rangeindex + 1, fs[k].byteSize)
+//@ ensures total-of-every-child: result == sum(k, 0, len(fs), fs[k].byteSize)
 
 //@ func (data/builder.fileShards).totalStoredSize
 //@ pure
 //@ reads mem(fs)
 //@ alias totalStored uint64
+//@ loop 0 invariant running-total-counts-every-child: total == sum(k, 0, rangeindex + 1, fs[k].storedSize)
+//@ ensures total-of-every-child: result == sum(k, 0, len(fs), fs[k].storedSize)
 
 //@ func (data/builder.fileShards).byteSizes
 //@ ensures same-length: len(result) == len(fs)
